@@ -46,6 +46,10 @@ def form_charset(ct):
         return "utf-8"
 
 
+HIST_VIEWS = ["respcookies", "reqcookies", "query", "form", "multipart", "path"]
+HIST_EXPIRES = "Wed, 01-Jan-2031 00:00:00 GMT"
+
+
 def _unq(s):
     import urllib.parse
     return urllib.parse.unquote(s, errors="surrogateescape")
@@ -160,6 +164,10 @@ class Check(PropertyCheck):
             "messages whose content-type carries parameters (charset absent/utf-8/latin-1/utf-16le/utf-16be/utf-32le/cp037/cp500/unknown/quoted, "
             "extra and upper-case parameter names, non-form types) with existing bodies written consistently or inconsistently with them, both "
             "for set-then-get and for write-back of the existing view (formwb); multipart content types with charset/extra/upper-case parameters. "
+            "hist cases: two or three messages with identical Set-Cookie / Cookie lines, query, form or multipart body, or path; on the first one the "
+            "view is read, the objects it hands out are edited in place (CookieAttrs set/add, list items), written back, assigned new pairs "
+            "or (responses) refresh()ed, and after every step every untouched message must still read what its raw data says (input-derived), "
+            "keep its raw data, survive a write-back of its own view, and a fresh message assigned the same pairs must read them back. "
             "distinct = distinct case; non-trivial = non-empty list/header.")
     budget = {"quick": 8000, "thorough": 250000}
     time_budget = {"quick": 30, "thorough": 420}
@@ -267,6 +275,10 @@ class Check(PropertyCheck):
                     yield {"k": "formwb", "body0": body0, "ct": ct, "benc": benc}
         for ct in MP_CT_PARAMS:
             yield {"k": "multipart", "ct": ct, "parts": [[hx(b"k"), hx(b"v")], [hx(b"k2"), hx(b"")]], "body0": None}
+        for view in HIST_VIEWS:
+            for ops in (["mutate"], ["writeback"], ["assign"], ["mutate", "writeback"], ["read", "mutate", "assign"]) + \
+                    ((["refresh"], ["mutate", "refresh"]) if view == "respcookies" else ()):
+                yield {"k": "hist", "view": view, "pairs": [["sid", "abc123"], ["k2", "v2"]], "ops": list(ops), "n": 2}
         for p0 in WIDE_PATHS:
             yield {"k": "wb", "path0": p0}
             if p0 != "*":
@@ -274,7 +286,13 @@ class Check(PropertyCheck):
                 yield {"k": "path", "comps": ["x", "y z"], "path0": p0}
         while True:
             r = rng.random()
-            if r < 0.10: yield {"k": "wb", "path0": self._wide_path(rng)}
+            if r < 0.05:
+                view = rng.pick(HIST_VIEWS)
+                tok = lambda: "".join(rng.pick("abcxyz019") for _ in range(rng.randint(1, 5)))
+                ops = [rng.pick(["mutate", "writeback", "assign", "read"] + (["refresh", "refresh"] if view == "respcookies" else []))
+                       for _ in range(rng.randint(1, 4))]
+                yield {"k": "hist", "view": view, "pairs": [[tok(), tok()] for _ in range(rng.randint(1, 3))], "ops": ops, "n": rng.randint(2, 3)}
+            elif r < 0.10: yield {"k": "wb", "path0": self._wide_path(rng)}
             elif r < 0.22: yield {"k": "cookie", "pairs": self._ck_pairs(rng)}
             elif r < 0.32: yield {"k": "cookiehdr", "hdrs": [self._sane(self._s(rng, CK_ALPHA, 0, 8)) for _ in range(rng.randint(1, 2))]}
             elif r < 0.47: yield {"k": "setcookie", "cookies": [self._sc(rng) for _ in range(rng.randint(0, 2))]}
@@ -305,6 +323,112 @@ class Check(PropertyCheck):
     def _resp(headers=()):
         hs = http.Headers(); hs.fields = tuple(headers)
         return http.Response(b"HTTP/1.1", 200, b"OK", hs, b"", None, 0, 0)
+
+    # ---- histories over several messages with identical content: what one message's view hands out must not leak into another ----
+    @staticmethod
+    def _hist_make(view, pairs):
+        """a message whose raw header/body/path spells `pairs` in the plainest way, and the view value that spelling denotes"""
+        if view == "respcookies":
+            lines = ["%s=%s; Path=/app; Expires=%s; HttpOnly" % (a, b, HIST_EXPIRES) for a, b in pairs]
+            m = Check._resp([(b"Set-Cookie", l.encode()) for l in lines])
+            want = [[a, b, [["Path", "/app"], ["Expires", HIST_EXPIRES], ["HttpOnly", None]]] for a, b in pairs]
+            return m, want
+        if view == "reqcookies":
+            return Check._req(headers=[(b"Cookie", "; ".join("%s=%s" % (a, b) for a, b in pairs).encode())]), [list(p) for p in pairs]
+        if view == "query":
+            return Check._req(path=("/p?" + "&".join("%s=%s" % (a, b) for a, b in pairs)).encode()), [list(p) for p in pairs]
+        if view == "form":
+            return Check._req(headers=[(b"content-type", b"application/x-www-form-urlencoded")],
+                              content="&".join("%s=%s" % (a, b) for a, b in pairs).encode()), [list(p) for p in pairs]
+        if view == "multipart":
+            body = b"".join(b'--BB\r\nContent-Disposition: form-data; name="%s"\r\n\r\n%s\r\n' % (a.encode(), b.encode()) for a, b in pairs) + b"--BB--\r\n"
+            return Check._req(headers=[(b"content-type", b"multipart/form-data; boundary=BB")], content=body), [[a, b] for a, b in pairs]
+        return Check._req(path=("/" + "/".join(a for a, _ in pairs) + "?x=1").encode()), [a for a, _ in pairs]
+
+    @staticmethod
+    def _hist_read(view, m):
+        if view == "respcookies": return [[n, v, [[a, b] for a, b in attrs.fields]] for n, (v, attrs) in m.cookies.fields]
+        if view == "reqcookies": return [[a, b] for a, b in m.cookies.fields]
+        if view == "query": return [list(p) for p in m.query.fields]
+        if view == "form": return [list(p) for p in m.urlencoded_form.fields]
+        if view == "multipart": return [[a.decode(), b.decode()] for a, b in m.multipart_form.fields]
+        return list(m.path_components)
+
+    @staticmethod
+    def _hist_raw(view, m):
+        if view == "respcookies": return m.headers.get_all("set-cookie")
+        if view == "reqcookies": return m.headers.get_all("cookie")
+        if view in ("form", "multipart"): return [m.headers.get("content-type"), m.raw_content.decode("latin-1")]
+        return [m.path]
+
+    @staticmethod
+    def _hist_attr(view):
+        return {"respcookies": "cookies", "reqcookies": "cookies", "query": "query", "form": "urlencoded_form", "multipart": "multipart_form"}.get(view)
+
+    def _hist_mutate(self, view, m):
+        """edit in place whatever the view handed out (documented to have no effect unless it is assigned back)"""
+        if view == "path":
+            x = m.path_components
+            try: x += ("zz",)
+            except Exception: pass
+            return
+        fields = getattr(m, self._hist_attr(view)).fields
+        for item in fields:
+            if view == "respcookies":
+                attrs = item[1][1]
+                attrs["Max-Age"] = "0"; attrs["Secure"] = None; attrs["Path"] = "/evil"
+                attrs.set_all("Expires", ["Thu, 01 Jan 1970 00:00:00 GMT"])
+            elif isinstance(item, list):
+                item[:] = ["mut", "ated"]
+        if isinstance(fields, list):
+            fields.append(("mut", "ated") if view != "multipart" else (b"mut", b"ated"))
+
+    def _hist(self, case):
+        import time
+        view, pairs, n = case["view"], [tuple(p) for p in case["pairs"]], max(2, case.get("n", 2))
+        msgs = []
+        for _ in range(n):
+            m, want = self._hist_make(view, pairs)
+            msgs.append(m)
+        A, others = msgs[0], msgs[1:]
+        raw0 = self._hist_raw(view, others[0])
+        other_pairs = [("n" + a, b + "2") for a, b in pairs]
+        obs = {"want": want, "steps": []}
+        assigned = None
+        for op in case["ops"]:
+            if op == "read": self._hist_read(view, A)
+            elif op == "mutate": self._hist_mutate(view, A)
+            elif op == "refresh":
+                A.timestamp_start = time.time() - 7 * 24 * 3600
+                A.refresh()
+            elif op == "writeback":
+                if view == "path": A.path_components = A.path_components
+                else: setattr(A, self._hist_attr(view), getattr(A, self._hist_attr(view)).fields)
+            elif op == "assign":
+                X, wantX = self._hist_make(view, other_pairs)
+                if view == "path": val = tuple(X.path_components)
+                else: val = getattr(X, self._hist_attr(view)).fields
+                if view == "path": A.path_components = val
+                else: setattr(A, self._hist_attr(view), val)
+                assigned = (val, wantX)
+            obs["steps"].append({"op": op, "others": [self._hist_read(view, o) for o in others],
+                                 "raw_same": all(self._hist_raw(view, o) == raw0 for o in others)})
+        # A itself, when it was only read or edited in place (nothing assigned, written back or refreshed)
+        obs["A_untouched"] = all(op in ("read", "mutate") for op in case["ops"])
+        obs["A"] = self._hist_read(view, A)
+        # writing the untouched message's own view back changes nothing
+        B = others[0]
+        if view == "path": B.path_components = B.path_components
+        else: setattr(B, self._hist_attr(view), getattr(B, self._hist_attr(view)).fields)
+        obs["B_after_wb"] = self._hist_read(view, B)
+        obs["B_raw_after_wb_same"] = self._hist_raw(view, B) == raw0
+        # the value assigned to A earlier, assigned to a fresh message, reads back as assigned
+        if assigned is not None:
+            D, _ = self._hist_make(view, pairs)
+            if view == "path": D.path_components = assigned[0]
+            else: setattr(D, self._hist_attr(view), assigned[0])
+            obs["D"] = self._hist_read(view, D); obs["D_want"] = assigned[1]
+        return obs
 
     @staticmethod
     def _text_seen_by_setter(r):
@@ -371,6 +495,8 @@ class Check(PropertyCheck):
                 return {"dec": [[hx(a), hx(b)] for a, b in d]}
             except ValueError:
                 return {"dec": "ValueError"}
+        if k == "hist":
+            return self._hist(case)
         if k == "wb":
             pb = case["path0"].encode("utf8", "surrogateescape")
             hd = [(b"Host", b"example.com"), (b"Cookie", b"a=1; b=\"x y\"")]
@@ -462,6 +588,25 @@ class Check(PropertyCheck):
                 rep2 = all(kk != b"" and delim not in kk and delim not in vv for kk, vv in got)
                 if rep2:
                     fails.append("multipart-writeback[%s]: view %r became %r" % (self._mp_tag(case, obs, got, bnd), got, obs["back2"]))
+        elif k == "hist":
+            # a view is a function of ITS message: "reading the view back yields the same pairs" must hold for an untouched message whatever
+            # happened to other messages with the same content, and for a message whose handed-out objects were only edited in place
+            want = obs["want"]
+            for i, st in enumerate(obs["steps"]):
+                for j, v in enumerate(st["others"]):
+                    if v != want:
+                        fails.append("hist: after %r on message A, untouched message #%d with the same %s reads %r, its raw data says %r" %
+                                     (case["ops"][:i + 1], j + 1, case["view"], v, want)); break
+                if not st["raw_same"]:
+                    fails.append("hist: after %r on message A the raw data of an untouched message changed" % (case["ops"][:i + 1],))
+                if fails: break
+            if not fails:
+                if obs["A_untouched"] and obs["A"] != want:
+                    fails.append("hist: editing the objects handed out by the %s view in place changed the view: %r, raw data says %r" % (case["view"], obs["A"], want))
+                if obs["B_after_wb"] != want or (not obs["B_raw_after_wb_same"] and case["view"] in ("respcookies", "reqcookies", "query", "path")):
+                    fails.append("hist: writing the untouched message's own %s view back changed it: %r (raw data same: %r)" % (case["view"], obs["B_after_wb"], obs["B_raw_after_wb_same"]))
+                if "D" in obs and obs["D"] != obs["D_want"]:
+                    fails.append("hist: the pairs assigned to message A, assigned to a fresh message, read back as %r instead of %r" % (obs["D"], obs["D_want"]))
         elif k == "wb":
             p0, base = case["path0"], obs["base"]
             # the views read the request target as it stands
@@ -764,7 +909,7 @@ class Check(PropertyCheck):
         return "|".join(self._pairs_field(c) for c in cookies)
 
     def classify(self, case, obs):
-        if case["k"] == "wb": return json.dumps(case, sort_keys=True)
+        if case["k"] in ("wb", "hist"): return json.dumps(case, sort_keys=True)
         triv = {"cookie": "pairs", "cookiehdr": "hdrs", "setcookie": "cookies", "setcookiehdr": "hdrs", "multipart": "parts", "query": "pairs",
                 "form": "pairs", "path": "comps"}.get(case["k"])
         if triv and not case[triv]: return None
@@ -778,6 +923,8 @@ class Check(PropertyCheck):
             if any(nck._has_special(v) for _, v in case["pairs"]): out.append("cookie:quoted-value")
         if k == "setcookie":
             out.append("representable" if all(sc_representable(*c) for c in case["cookies"]) else "not-representable")
+        if k == "hist":
+            out += ["hist:" + case["view"]] + ["hist-op:" + o for o in set(case["ops"])]
         if k in ("form", "formwb"):
             ct = case["ct"] or ""
             p_ = nh.parse_content_type(ct)
